@@ -514,6 +514,33 @@ Section ObjProofs.
   Lemma obj_history_fresh : forall ops,
     map oobs (snd (run o_init ops)) = map (ospec data nat_dt) ops.
   Proof. intros ops. apply obj_history_fresh_from. exact I. Qed.
+
+  (* sentence 2 of the property: what the reads return does not depend on the
+     in-place modifications of arrays handed out before *)
+  Definition is_oread (o : oop) : bool := match o with ORead _ => true | _ => false end.
+  Definition read_obs {X} (ops : list oop) (outs : list X) : list X :=
+    map snd (filter (fun p => is_oread (fst p)) (combine ops outs)).
+  Definition drop_omuts (ops : list oop) : list oop := filter is_oread ops.
+
+  Lemma read_obs_map {X} (g : oop -> X) ops :
+    read_obs ops (map g ops) = map g (filter is_oread ops).
+  Proof.
+    unfold read_obs. induction ops as [|o ops IH]; [reflexivity|].
+    simpl. destruct (is_oread o); simpl; now rewrite IH.
+  Qed.
+
+  Lemma filter_idem ops : filter is_oread (drop_omuts ops) = filter is_oread ops.
+  Proof.
+    unfold drop_omuts. induction ops as [|o ops IH]; [reflexivity|].
+    simpl. destruct (is_oread o) eqn:Ho; simpl; [rewrite Ho|]; now rewrite IH.
+  Qed.
+
+  Lemma obj_reads_independent_of_modifications : forall ops,
+    read_obs ops (map oobs (snd (run o_init ops)))
+    = read_obs (drop_omuts ops) (map oobs (snd (run o_init (drop_omuts ops)))).
+  Proof.
+    intros ops. rewrite !obj_history_fresh, !read_obs_map. now rewrite filter_idem.
+  Qed.
 End ObjProofs.
 
 (* a writable cached array: ds["deform"][:][0] = 999 changes later reads *)
